@@ -218,10 +218,16 @@ def run(ctx):
   ctx.check(okord, 'C10.order', con, 'the missing names are ordered by _order_by_signature before they are formatted into the error',
             'the missing names are reported without being put into signature order', f.loc(), instance='order')
   ob = ctx.func('config._order_by_signature')
-  ok = any(isinstance(n, ast.ListComp) and 'all_args' in u(n.generators[0].iter) for n in walk_local(ob.node)) and \
-      any(isinstance(c, ast.Call) and u(c.func) == 'all_args.extend' and 'kwonlyargs' in u(c.args[0]) for c in walk_local(ob.node))
-  ctx.check(ok, 'C10.order', construct(ob), 'ordering follows positional-or-keyword then keyword-only parameters of the signature',
-            '_order_by_signature no longer iterates the signature order (args then kwonlyargs)', ob.loc(), instance='helper')
+  try:
+    got, problems = order_semantics(ob)
+  except Uninterpreted as e:
+    raise AnalysisError('_order_by_signature uses a form the ordering rule cannot interpret: %s' % e)
+  want = [('A', frozenset({(1, 0, 1)})), ('K', frozenset({(0, 1, 1)})), ('G', frozenset({(0, 0, 1)}))]
+  ctx.check(got == want and not problems, 'C10.order', construct(ob),
+            'the helper returns the given names that are positional-or-keyword parameters in signature order, then the keyword-only ones in '
+            'signature order, then the remaining given names in the order given',
+            '_order_by_signature returns %s%s, not [given names among args, in signature order] + [given names among kwonlyargs, in signature order] + '
+            '[other given names, as given]' % (show_order(got), ('; ' + '; '.join(problems)) if problems else ''), ob.loc(), instance='helper')
 
   # ---- C10.registration
   rv = ctx.func('config._get_validated_required_kwargs')
@@ -245,12 +251,44 @@ def run(ctx):
     return None
   ok = bool(apps)
   miss = []
+  reqs = [('denylisted', 'not deny or not in_deny'), ('not allowlisted', 'not allow or in_allow')]
   for n in apps:
-    miss = facts_imply(facts2[n.id], [('denylisted marker rejected', 'not deny or not in_deny'),
-                                      ('non-allowlisted marker rejected', 'not allow or in_allow'),
-                                      ('only markers collected', 'is_required')], atom2)
+    miss = facts_imply(facts2[n.id], reqs + [('not marked REQUIRED at all', 'is_required')], atom2)
     if miss:
       ok = False
+  if not apps:
+    # collect-then-validate form: R = [k for k, v in defaults.items() if v is REQUIRED]; for k in R: <raise if rejected>; return R
+    from ..cfg import decompose
+    rets_v = [n for n in g2.live_nodes() if n.kind == 'return' and isinstance(n.ast.value, ast.Name)]
+    for r in rets_v:
+      R = r.ast.value.id
+      d = def_of(facts2[r.id], R)
+      try:
+        comp = ast.parse(d, mode='eval').body if d else None
+      except SyntaxError:
+        comp = None
+      collected = isinstance(comp, ast.ListComp) and len(comp.generators) == 1 and len(comp.generators[0].ifs) == 1 \
+          and atom2(comp.generators[0].ifs[0]) == 'is_required' and isinstance(comp.generators[0].target, ast.Tuple) \
+          and u(comp.elt) == u(comp.generators[0].target.elts[0]) and u(comp.generators[0].iter).endswith('.items()')
+      loops = [n for n in g2.live_nodes() if n.kind == 'for' and u(n.ast.iter) == R and not any(isinstance(x, (ast.Break, ast.Return)) for x in ast.walk(n.ast))]
+      ok = collected and bool(loops)
+      for lpn in loops:
+        # every way of finishing one iteration normally establishes both acceptance conditions
+        if witness(g2, g2.entry.id, [r.id], avoid=[lpn.id]) is not None:
+          ok = False
+        inside = [(a, k) for a, k in g2.pred[lpn.id] if g2.nodes[a].ast is not None and in_subtree(g2.nodes[a].ast, lpn.ast) and a != lpn.id]
+        if not inside:
+          ok = False
+        for a, k in inside:
+          pn = g2.nodes[a]
+          fs = set(facts2[a])
+          if pn.kind == 'test' and k in ('T', 'F'):
+            for tx in (pn.ast, g2.expanded.get(a), g2.expanded_bool.get(a)):
+              if tx is not None:
+                fs |= {('c', t_, p_) for t_, p_ in decompose(tx, k == 'T')}
+          miss = facts_imply(fs, reqs, atom2)
+          if miss:
+            ok = False
   ctx.check(ok, 'C10.registration', construct(rv),
             'a signature-level marker is collected only after the denylist / allowlist rejections',
             'a signature-level REQUIRED on a parameter that is %s is accepted at registration' %
@@ -259,3 +297,234 @@ def run(ctx):
   ctx.check(bool(called) and not any(in_subtree(c, f.node) for c in called), 'C10.registration', construct(w.factory),
             'the validation runs in the factory, i.e. at registration', 'signature-level REQUIRED markers are no longer validated at registration',
             w.factory.loc(), instance='at-registration')
+
+
+class Uninterpreted(Exception):
+  pass
+
+
+REGIONS = [(a, k, g_) for a in (0, 1) for k in (0, 1) for g_ in (0, 1) if not (a and k)]
+ATOM = {'A': frozenset(r for r in REGIONS if r[0]), 'K': frozenset(r for r in REGIONS if r[1]), 'G': frozenset(r for r in REGIONS if r[2])}
+
+
+def show_order(segs):
+  if segs is None:
+    return 'nothing'
+  names = {(1, 0, 1): 'given&args', (0, 1, 1): 'given&kwonly', (0, 0, 1): 'given-only', (1, 0, 0): 'args-not-given', (0, 1, 0): 'kwonly-not-given',
+           (0, 0, 0): 'neither'}
+  return '[' + ' + '.join('%s in %s order' % ('|'.join(sorted(names[r] for r in rs)),
+                                                 {'A': 'args', 'K': 'kwonly', 'G': 'given', '?': 'unspecified'}.get(o, o)) for o, rs in segs) + ']'
+
+
+class _Seq:
+  def __init__(self, segs, alias=False):
+    self.segs = [(o, frozenset(r)) for o, r in segs if r]
+    self.alias = alias
+
+  def elements(self):
+    out = frozenset()
+    for _o, r in self.segs:
+      out |= r
+    return out
+
+
+class _Pos:
+  def __init__(self, seq):
+    self.seq = seq
+
+
+def order_semantics(fn):
+  """Abstract evaluation of the ordering helper over the domain
+  (order atom, Venn regions of {args, kwonlyargs, given names}) per segment.
+  Returns (segments of the returned list, problems)."""
+  params = fn.params
+  if len(params) < 2:
+    raise Uninterpreted('signature')
+  env = {params[1]: _Seq([('G', ATOM['G'])], alias=True)}
+  spec_names = set()
+  problems = []
+  result = []
+
+  def elements(v):
+    if isinstance(v, _Seq):
+      return v.elements()
+    if isinstance(v, _Pos):
+      return v.seq.elements()
+    if isinstance(v, frozenset):
+      return v
+    raise Uninterpreted('membership in a value of unknown kind')
+
+  def ev(e):
+    if isinstance(e, ast.Name):
+      if e.id in env:
+        return env[e.id]
+      raise Uninterpreted('name %s' % e.id)
+    if isinstance(e, ast.Attribute) and isinstance(e.value, ast.Name) and e.value.id in spec_names:
+      if e.attr == 'args':
+        return _Seq([('A', ATOM['A'])], alias=True)
+      if e.attr == 'kwonlyargs':
+        return _Seq([('K', ATOM['K'])], alias=True)
+      raise Uninterpreted('arg spec field %s' % e.attr)
+    if isinstance(e, ast.BoolOp) and isinstance(e.op, ast.Or) and len(e.values) == 2 and isinstance(e.values[1], (ast.Tuple, ast.List)) \
+        and not e.values[1].elts:
+      return ev(e.values[0])
+    if isinstance(e, (ast.List, ast.Tuple)) and not e.elts:
+      return _Seq([])
+    if isinstance(e, ast.BinOp) and isinstance(e.op, ast.Add):
+      a, b = ev(e.left), ev(e.right)
+      if isinstance(a, _Seq) and isinstance(b, _Seq):
+        return _Seq(a.segs + b.segs)
+      raise Uninterpreted(u(e))
+    if isinstance(e, ast.Subscript) and isinstance(e.slice, ast.Slice) and e.slice.lower is None and e.slice.upper is None and e.slice.step is None:
+      v = ev(e.value)
+      return _Seq(v.segs) if isinstance(v, _Seq) else v
+    if isinstance(e, ast.Call):
+      fnm = u(e.func)
+      if fnm in ('list', 'tuple') and len(e.args) == 1:
+        v = ev(e.args[0])
+        if isinstance(v, _Seq):
+          return _Seq(v.segs)
+        if isinstance(v, frozenset):
+          return _Seq([('?', v)])
+        raise Uninterpreted(u(e))
+      if fnm in ('list', 'tuple') and not e.args:
+        return _Seq([])
+      if fnm in ('set', 'frozenset') and len(e.args) <= 1:
+        return elements(ev(e.args[0])) if e.args else frozenset()
+      if isinstance(e.func, ast.Attribute) and e.func.attr == 'copy' and not e.args:
+        v = ev(e.func.value)
+        return _Seq(v.segs) if isinstance(v, _Seq) else v
+      if fnm == 'reversed' or (fnm == 'sorted' and any(k.arg == 'reverse' for k in e.keywords)):
+        v = ev(e.args[0])
+        return _Seq([('?', elements(v))])
+      if fnm == 'sorted' and len(e.args) == 1:
+        v = ev(e.args[0])
+        key = next((k.value for k in e.keywords if k.arg == 'key'), None)
+        if key is None:
+          return _Seq([('?', elements(v))])     # alphabetical: not a signature order
+        pm = None
+        if isinstance(key, ast.Attribute) and key.attr in ('__getitem__', 'get', 'index') and isinstance(key.value, ast.Name):
+          pm = ev(key.value)
+        elif isinstance(key, ast.Lambda) and len(key.args.args) == 1:
+          b = key.body
+          x = key.args.args[0].arg
+          if isinstance(b, ast.Subscript) and u(b.slice) == x:
+            pm = ev(b.value)
+          elif isinstance(b, ast.Call) and isinstance(b.func, ast.Attribute) and b.func.attr in ('index', 'get') and len(b.args) == 1 and u(b.args[0]) == x:
+            pm = ev(b.func.value)
+        if pm is None:
+          raise Uninterpreted('sort key %s' % u(key))
+        base = pm.seq if isinstance(pm, _Pos) else pm
+        if not isinstance(base, _Seq):
+          raise Uninterpreted('sort key %s' % u(key))
+        els = elements(v)
+        if not els <= base.elements():
+          problems.append('`%s` looks up names that have no position' % u(e))
+        return _Seq([(o, r & els) for o, r in base.segs])
+      if _is_cached_spec(e):
+        return 'SPEC'
+      raise Uninterpreted(u(e))
+    if isinstance(e, (ast.ListComp, ast.SetComp, ast.GeneratorExp)) and len(e.generators) == 1:
+      gen = e.generators[0]
+      if not (isinstance(gen.target, ast.Name) and isinstance(e.elt, ast.Name) and e.elt.id == gen.target.id):
+        raise Uninterpreted(u(e))
+      src = ev(gen.iter)
+      keep = None
+      for i in gen.ifs:
+        keep = _filter(i, gen.target.id, keep)
+      if isinstance(src, _Seq):
+        out = _Seq([(o, r if keep is None else r & keep) for o, r in src.segs])
+      else:
+        els = elements(src)
+        out = _Seq([('?', els if keep is None else els & keep)])
+      return out.elements() if isinstance(e, ast.SetComp) else out
+    if isinstance(e, ast.DictComp) and len(e.generators) == 1 and not e.generators[0].ifs:
+      gen = e.generators[0]
+      it = gen.iter
+      if isinstance(it, ast.Call) and u(it.func) == 'enumerate' and len(it.args) == 1 and isinstance(gen.target, ast.Tuple) \
+          and len(gen.target.elts) == 2 and u(e.key) == u(gen.target.elts[1]) and u(e.value) == u(gen.target.elts[0]):
+        v = ev(it.args[0])
+        if isinstance(v, _Seq):
+          return _Pos(v)
+      raise Uninterpreted(u(e))
+    raise Uninterpreted(u(e))
+
+  def _is_cached_spec(e):
+    return isinstance(e, ast.Call) and isinstance(e.func, ast.Name) and e.func.id in ('_get_cached_arg_spec',) and len(e.args) == 1
+
+  def _filter(test, var, keep):
+    all_r = frozenset(REGIONS)
+    keep = all_r if keep is None else keep
+    if isinstance(test, ast.Compare) and len(test.ops) == 1 and isinstance(test.ops[0], (ast.In, ast.NotIn)) and u(test.left) == var:
+      s_ = elements(ev(test.comparators[0]))
+      return keep & s_ if isinstance(test.ops[0], ast.In) else keep - s_
+    if isinstance(test, ast.BoolOp) and isinstance(test.op, ast.And):
+      for v in test.values:
+        keep = _filter(v, var, keep)
+      return keep
+    raise Uninterpreted('filter %s' % u(test))
+
+  def extend(name, val, where):
+    tgt = env.get(name)
+    if not isinstance(tgt, _Seq) or not isinstance(val, _Seq):
+      raise Uninterpreted('extend at line %d' % where.lineno)
+    if tgt.alias:
+      problems.append('line %d extends `%s`, which is the list held by the cached signature itself (or the caller\'s list): the cache is '
+                      'corrupted for every later call' % (where.lineno, name))
+    env[name] = _Seq(tgt.segs + val.segs, alias=tgt.alias)
+
+  def run(stmts):
+    for st in stmts:
+      if isinstance(st, ast.Expr) and isinstance(st.value, ast.Constant):
+        continue
+      if isinstance(st, ast.Assign) and len(st.targets) == 1 and isinstance(st.targets[0], ast.Name):
+        if _is_cached_spec(st.value):
+          spec_names.add(st.targets[0].id)
+          continue
+        env[st.targets[0].id] = ev(st.value)
+      elif isinstance(st, ast.AugAssign) and isinstance(st.target, ast.Name) and isinstance(st.op, ast.Add):
+        extend(st.target.id, ev(st.value), st)
+      elif isinstance(st, ast.Expr) and isinstance(st.value, ast.Call) and isinstance(st.value.func, ast.Attribute) \
+          and st.value.func.attr == 'extend' and isinstance(st.value.func.value, ast.Name) and len(st.value.args) == 1:
+        extend(st.value.func.value.id, ev(st.value.args[0]), st)
+      elif isinstance(st, ast.If) and not st.orelse and isinstance(st.test, ast.Attribute) and st.test.attr == 'kwonlyargs':
+        run(st.body)            # extending by an empty sequence is the identity
+      elif isinstance(st, ast.For) and not st.orelse and isinstance(st.target, ast.Name):
+        # for x in S: [if x (not) in T:] L.append(x)
+        inner, keep = st.body[0] if len(st.body) == 1 else None, None
+        while isinstance(inner, ast.If) and not inner.orelse and len(inner.body) == 1:
+          keep = _filter(inner.test, st.target.id, keep)
+          inner = inner.body[0]
+        if not (isinstance(inner, ast.Expr) and isinstance(inner.value, ast.Call) and isinstance(inner.value.func, ast.Attribute)
+                and inner.value.func.attr == 'append' and isinstance(inner.value.func.value, ast.Name) and len(inner.value.args) == 1
+                and u(inner.value.args[0]) == st.target.id):
+          raise Uninterpreted('loop at line %d' % st.lineno)
+        src = ev(st.iter)
+        if not isinstance(src, _Seq):
+          raise Uninterpreted('loop at line %d iterates an unordered value' % st.lineno)
+        extend(inner.value.func.value.id, _Seq([(o, r if keep is None else r & keep) for o, r in src.segs]), st)
+      elif isinstance(st, ast.Return) and st.value is not None:
+        v = ev(st.value)
+        if not isinstance(v, _Seq):
+          raise Uninterpreted('return value')
+        result.append(v)
+        return
+      else:
+        raise Uninterpreted('%s at line %d' % (type(st).__name__, st.lineno))
+  run(fn.node.body)
+  if not result:
+    return None, problems
+  # merge neighbouring segments that have the same order atom
+  segs = []
+  for o, r in result[0].segs:
+    if segs and segs[-1][0] == o:
+      segs[-1] = (o, segs[-1][1] | r)
+    else:
+      segs.append((o, r))
+  # an element listed twice
+  seen = frozenset()
+  for o, r in segs:
+    if seen & r:
+      problems.append('some names are listed twice')
+    seen |= r
+  return segs, problems
